@@ -104,6 +104,26 @@ def ns_map_of(nf):
             else:
                 return None
         return out
+    if nf[0] == "format":
+        # the map put together as one text: literal entries (`"soapenv" = "http://.."`) and, per element of a list, `, {:?} = {:?}`
+        out = []
+        entry = re.compile(r'"([^"]*)"\s*=\s*"([^"]*)"')
+        for p in nf[1]:
+            if p[0] == "lit":
+                for m in entry.finditer(p[1]):
+                    out.append((("lit", m.group(1)), ("lit", m.group(2)), None))
+                if re.sub(r"namespaces|[\s={},]", "", entry.sub("", p[1])):
+                    return None
+            else:
+                v = p[1]
+                if not (isinstance(v, tuple) and v[0] == "joinmap" and isinstance(v[2], tuple) and v[2][0] == "format"):
+                    return None
+                holes = [q[1] for q in v[2][1] if q[0] == "hole"]
+                lits = "".join(q[1] for q in v[2][1] if q[0] == "lit") + (v[3] if isinstance(v[3], str) else "")
+                if len(holes) != 2 or re.sub(r'[\s=,"]', "", lits):
+                    return None
+                out.append((holes[0], holes[1], v[1]))
+        return out or None
     return None
 
 
@@ -133,14 +153,24 @@ def nsmap_entries(a, CE):
             return ("lit", t.strip('"'))
         if len(marks) == 1 and re.fullmatch(r"\x00\d+\x00", inner):
             return ns_map_of(CE.expand(holes[order[marks[0]]])), True
+        def as_one_text():
+            # the template read as one text with holes: literal entries and holes that bring their own `, k = v` entries
+            parts = []
+            for piece in re.split(r"(\x00\d+\x00)", inner):
+                mm = re.fullmatch(r"\x00(\d+)\x00", piece)
+                if mm:
+                    parts.append(("hole", CE.expand(holes[order[mm.group(1)]]), "display", "?"))
+                elif piece:
+                    parts.append(("lit", piece))
+            return ns_map_of(("format", tuple(parts)))
         entries = []
         for item in [x for x in inner.split(",") if x.strip()]:
             if "=" not in item:
-                return None, True
+                return as_one_text(), True
             k, v = item.split("=", 1)
             k, v = side(k), side(v)
             if k is None or v is None:
-                return None, True
+                return as_one_text(), True
             entries.append((k, v, None))
         return entries, True
     for h in a.get("_holes", []):
